@@ -27,7 +27,7 @@ var properties = []Property{
 		LevelNote:  "Trusted: go/types+go/ssa. The typestate treats any type test of the current token as 'seen'. Acceptance completeness is only covered through GRAM.table/chain.",
 	}, 
 	{ID: "C03", Title: "Untrusted input never crashes the library: a result or an error, always",
-		Rules:     []string{"TAG.access", "TAG.exprtoken", "PANIC.assert", "PANIC.div", "PANIC.shift", "PANIC.recover", "PANIC.result", "PANIC.explicit", "PANIC.ifacecmp", "PANIC.progress", "PANIC.nilres", "CONV.tag", "CONV.identity"},
+		Rules:     []string{"TAG.access", "TAG.exprtoken", "PANIC.assert", "PANIC.div", "PANIC.shift", "PANIC.recover", "PANIC.result", "PANIC.explicit", "PANIC.ifacecmp", "PANIC.progress", "PANIC.nilres", "PANIC.index", "DIM.runes", "CONV.tag", "CONV.identity"},
 		Technique: "panic-site inventory with dominating-guard / typestate discharge over go/ssa",
 	},
 	 {ID: "C04"}, {ID: "C05"}, 
@@ -48,7 +48,12 @@ var properties = []Property{
 		LevelText:  "Table agreement over the full 11×11 matrices of both managers on every run. A deviating cell is a conversion that returns the wrong type, a wrong unit or an un-whitelisted success for every value of that source type.",
 		LevelNote:  "Trusted: go/ssa; Go conversion semantics; the commons converters for string targets. The round-trip equations are decided only through unit/shape agreement of the two directions.",
 	},
-	 {ID: "C08"}, {ID: "C09"}, {ID: "C10"},
+	 
+	{ID: "C08", Title: "Built-in functions compute what their names denote",
+		Rules:     []string{"FUNC.table", "FUNC.chain", "FUNC.arity", "FUNC.fold", "PANIC.recover", "PANIC.result", "TAG.access", "PANIC.index"},
+		Technique: "registration-table resolution, normalised SSA result expressions per registered name, abstract interpretation over the argument count",
+	},
+	 {ID: "C09"}, {ID: "C10"},
 	{ID: "C11"}, {ID: "C12"}, {ID: "C13"}, {ID: "C14"}, {ID: "C15"}, {ID: "C16"}, {ID: "C17"}, {ID: "C18"}, {ID: "C19"}, {ID: "C20"},
 }
 
